@@ -7,6 +7,7 @@ import TexelVerif.Drv.Time
 import TexelVerif.Drv.Book
 import TexelVerif.Drv.BookBuild
 import TexelVerif.Drv.Csp
+import TexelVerif.Drv.Pos
 /-! Line-protocol driver: one operation per stdin line, one canonical reply line.
     Imports model files only (no proofs, no Mathlib), so it links as a `lean_exe`. -/
 
@@ -15,6 +16,7 @@ structure DrvState where
   nn : Drv.NN.State := {}
   pgbook : Drv.Book.St := {}
   book : Drv.BookBuild.State := {}
+  pos : Drv.Pos.State := {}
 
 def dispatch (st : DrvState) (line : String) : DrvState × String :=
   let toks := (line.trimAscii.toString.splitOn " ").filter (· ≠ "")
@@ -30,6 +32,7 @@ def dispatch (st : DrvState) (line : String) : DrvState × String :=
   | "bookrec" :: args => (st, Drv.BookBuild.stepRec args)
   | "csp" :: args => (st, Drv.Csp.solveLine args)
   | "bs" :: args => (st, Drv.Csp.bitset args)
+  | "pos" :: args => let (p, o) := Drv.Pos.step st.pos args; ({ st with pos := p }, o)
   | _ => (st, "bad-op")
 
 partial def loop (h : IO.FS.Stream) (out : IO.FS.Stream) (st : DrvState) : IO Unit := do
